@@ -32,11 +32,11 @@ from pbt import ref_c01 as R
 from pbt.harness import Task, ok, violation, discard, xt_call
 
 PID = "C01"
-RULE = ("n in 1..8 (thorough 24), ncols 1..3, target batch rank 0..2 (dims 1..3) with independent sub-patterns for A,B,E,M; dtype "
+RULE = ("n in 1..16 (thorough 24), ncols 1..3, target batch rank 0..2 (dims 1..3) with independent sub-patterns for A,B,E,M; dtype "
         "f32/f64/c128; spectrum kind {spd, indef, few_spd, normal_rhp, general, few_normal} with cond <= kappa in {2,10,100,1000}; "
         "operator kind {dense, mv, mv_rmv, mv_mm, all, add, sub, scale, matmul, H.H, adjoint-of-adjoint, jac}; Hermitian flag on/off; "
         "E mode {none, E, E+M, M only}; real/complex shifts; method {exactsolve, custom_exactsolve, cg, bicgstab, gmres, broyden1}; "
-        "options (rtol, atol, max_niter, resid_calc_every, posdef, preconditioners, f_tol, line_search); zero columns / all-zero B. Non-trivial = n>=2, B not "
+        "B columns / batch entries scaled by 10^k (k in -4..4), optionally one column in a 2-dimensional invariant subspace; options (rtol, atol, max_niter, resid_calc_every, posdef, preconditioners, f_tol, line_search); zero columns / all-zero B. Non-trivial = n>=2, B not "
         "identically zero and the call was silent (so the accuracy claim was actually decided); distinct by (method, E mode, kind, "
         "dtype, spectrum, batch class, n, in-class flag).")
 ASSUMPTIONS = [
@@ -45,7 +45,7 @@ ASSUMPTIONS = [
     "E keeps every shifted matrix well conditioned: Hermitian PD A gets e<=0 (or small e), others |e| <= 0.3 sigma_min(A)/|M|",
     "M is Hermitian positive definite with eigenvalues in [0.5, 2]",
     "B has O(1) entries or exactly-zero columns (the tiny-B early exit |B|<=atol is not exercised)",
-    "silent-convergence class restricted to float64/complex128, cond<=10, n<=8, default options",
+    "silent-convergence class restricted to float64/complex128, cond<=10, default options (or only posdef=False); n<=8 except direct methods and plain CG/BiCGSTAB on Hermitian positive definite systems (n<=24); broyden1 only for O(1) right-hand sides",
 ]
 LEVEL_TEXT = ("Exploration over the product operator kind x method x E/M mode x batch pattern x dtype x spectrum with the method's own "
               "stopping test re-evaluated on the returned tensor against dense float64 matrices, plus the class in which a warning "
@@ -72,6 +72,11 @@ def build_problem(case, g=None):
         B = B * 0
     elif z == "some" and ncols >= 2:
         B[..., 0] = 0
+    bs = case.get("bscale")
+    if bs:          # columns (and the first batch entry) of very different magnitude: per-column tolerances differ
+        B = B * torch.tensor([10.0 ** k for k in bs[:ncols]], dtype=torch.float64).to(dt)
+        if case["bB"] and case["bB"][0] > 1:
+            B[0] = B[0] * 10.0 ** bs[-1]
     E = M = None
     em = case["emode"]
     if em in ("E", "EM"):
@@ -88,14 +93,24 @@ def build_problem(case, g=None):
     if em in ("EM", "M"):
         M = R.spd_matrix(g, case["bM"], n, dt).to(dt)
         M = 0.5 * (M + R.H(M))
+    if case.get("easycol") and not (case["bA"] or case["bE"] or case["bM"]) and z != "all":
+        # column 0 lies in a 2-dimensional invariant subspace of S_0^H S_0 (of S_0 itself when it is normal): it converges
+        # after two iterations while the other columns go on
+        wd = R.cdtype(dt)
+        S0 = R.dense_shifted(A.to(wd), None if E is None else E.to(wd), None if (M is None or E is None) else M.to(wd), ncols)[0]
+        _, _, Vh = torch.linalg.svd(S0)
+        v = R.H(Vh)[:, [0, n - 1]].sum(dim=-1) if n >= 2 else R.H(Vh)[:, 0]
+        b0 = torch.matmul(S0, v).to(dt)
+        B[..., 0] = b0 * B[..., 0].abs().max(dim=-1, keepdim=True)[0]
     return A, B, E, M, g
 
 
 def in_silent_class(case, flagged_hermitian):
     """systems on which a ConvergenceWarning is itself a violation (docstring (c))"""
     opts = case["opts"]
+    n = case["n"]
     normal_eq = opts == {"posdef": False}            # the caller forces the normal equations S^H S x = S^H b
-    if case["dtype"] == "f32" or case["kappa"] > 10 or case["n"] > 8 or (opts and not normal_eq) or case["zero"] == "all":
+    if case["dtype"] == "f32" or case["kappa"] > 10 or n > 24 or (opts and not normal_eq) or case["zero"] == "all":
         return False
     m = case["method"]
     has_e = case["emode"] in ("E", "EM")
@@ -103,13 +118,20 @@ def in_silent_class(case, flagged_hermitian):
     if m in DIRECT:
         return True
     if m == "cg":
-        # flagged Hermitian operators run plain CG (needs S Hermitian PD); anything else runs CG on the normal equations,
-        # which are Hermitian PD with cond(S)^2 <= ~350: finite termination within n <= max_niter = int(1.5 n) steps
-        return pd if (flagged_hermitian and not normal_eq) else True
+        # flagged Hermitian operators run plain CG (needs S Hermitian PD; finite termination within n <= int(1.5 n) steps at
+        # cond <= ~20 for any n generated); anything else runs CG on the normal equations, which are Hermitian PD with
+        # cond(S)^2 <= ~350: claimed for n <= 8 only
+        if flagged_hermitian and not normal_eq:
+            return pd
+        return n <= 8
     if m == "bicgstab":
-        return normal_eq or case["spec"] in ("spd", "few_spd", "normal_rhp", "few_normal")
+        # on Hermitian PD systems BiCG coincides with CG (finite termination), claimed up to n = 24; otherwise n <= 8
+        if pd and not normal_eq:
+            return True
+        return n <= 8 and (normal_eq or case["spec"] in ("spd", "few_spd", "normal_rhp", "few_normal"))
     if m == "broyden1":
-        return not opts and case["spec"] in ("spd", "few_spd", "normal_rhp", "few_normal")
+        # absolute f_tol = 1e-6: only claimed for O(1) right-hand sides
+        return n <= 8 and not opts and not case.get("bscale") and case["spec"] in ("spd", "few_spd", "normal_rhp", "few_normal")
     return False
 
 
@@ -149,7 +171,7 @@ def run_case(case):
     cls = in_silent_class(case, bool(Aop.is_hermitian))
     batchclass = "b%d%d%d%d" % (len(case["bA"]), len(case["bB"]), len(case["bE"]) if E is not None else 0, len(case["bM"]) if M is not None else 0)
     labels = ["method=" + method, "emode=" + case["emode"], "kind=" + kind, "dtype=" + case["dtype"], "spec=" + case["spec"],
-              "batch=" + batchclass, "zero=" + case["zero"], "class=%s" % cls, "precond=%s" % pre, "opts=%s" % bool(case["opts"])]
+              "batch=" + batchclass, "zero=" + case["zero"], "bscale=%s" % bool(case.get("bscale")), "easycol=%s" % bool(case.get("easycol")), "class=%s" % cls, "precond=%s" % pre, "opts=%s" % bool(case["opts"])]
 
     with warnings.catch_warnings(record=True) as wlist:
         warnings.simplefilter("always")
@@ -183,7 +205,7 @@ def run_case(case):
         return violation("nonfinite_silent", "silent call returned non-finite values", labels)
     if warned:
         if cls:
-            return violation("warned_in_class", "ConvergenceWarning on a well-conditioned system in the silent-convergence class: %s" % (
+            return violation("warned_in_class:" + method, "ConvergenceWarning on a well-conditioned system in the silent-convergence class: %s" % (
                 str(warned[0].message)[:200]), labels)
         return ok(labels + ["warned"], False)
 
@@ -259,8 +281,8 @@ def run_case(case):
 
 @st.composite
 def case_st(draw, tier="quick", methods=METHODS):
-    nmax = 8 if tier == "quick" else 24
-    n = draw(st.one_of(st.integers(1, 4), st.integers(1, 8), st.integers(1, nmax)))
+    nmax = 16 if tier == "quick" else 24
+    n = draw(st.one_of(st.integers(1, 4), st.integers(1, 8), st.integers(1, 8), st.integers(9, nmax)))
     ncols = draw(st.integers(1, 3))
     batch = draw(R.batch_st(2))
     # coincidence of sizes (batch == n == ncols) is a known trouble spot: make it likely
@@ -304,15 +326,28 @@ def case_st(draw, tier="quick", methods=METHODS):
                 opts["line_search"] = False
     if dtype == "f32" and method == "broyden1" and "f_tol" not in opts:
         opts["f_tol"] = 1e-3
+    easy = draw(st.integers(0, 5)) == 0
+    bA, bB, bE, bM = (R.sub_batch(draw, batch) for _ in range(4))
+    if easy:
+        # scenario: one right-hand side converges after two iterations while the others go on (larger n, several columns,
+        # unbatched operator side so that the invariant-subspace column can be constructed)
+        bA, bE, bM = [], [], []
+        ncols = draw(st.integers(2, 3))
+        n = draw(st.sampled_from([6, 8, 12, 16] if tier == "quick" else [8, 12, 16, 20, 24]))
+        if method in DIRECT or method == "broyden1":
+            method = draw(st.sampled_from(["cg", "bicgstab", "bicgstab", "gmres"]))
+            opts = {}
     return {
         "n": n, "ncols": ncols, "batch": batch,
-        "bA": R.sub_batch(draw, batch), "bB": R.sub_batch(draw, batch), "bE": R.sub_batch(draw, batch), "bM": R.sub_batch(draw, batch),
+        "bA": bA, "bB": bB, "bE": bE, "bM": bM,
         "dtype": dtype, "spec": spec, "kappa": kappa, "kind": kind,
         "leaf": draw(st.sampled_from(["dense", "mv", "mv_rmv", "all"])),
         "mkind": draw(st.sampled_from(["dense", "mv", "all"])),
         "hflag": draw(st.sampled_from([True, True, False])),
         "method": method, "emode": emode, "ecomplex": draw(st.booleans()), "eneg": draw(st.sampled_from([True, True, False])),
         "opts": opts, "zero": draw(st.sampled_from(["none", "none", "none", "none", "some", "all"])),
+        "bscale": draw(st.one_of(st.none(), st.none(), st.lists(st.integers(-4, 4), min_size=4, max_size=4))),
+        "easycol": easy,
         "seed": draw(st.integers(0, 2 ** 31 - 1)),
     }
 
